@@ -483,7 +483,8 @@ Print Assumptions C01_source_is_power_of_2.
 (** ... and the two binary64 functions: quantize_to_step and steps_per_quarter_to_steps_per_second re-translated
     from their SOURCE into PrimFloat terms (Gen/TrF.v) are the model's [q2s] and [sps_rel], bit for bit. *)
 Theorem C01_source_quantize_to_step : forall t sps,
-  NS.Gen.TrF.trf_quantize_to_step t sps cutoff = Some (q2s t sps).
+  NS.Gen.TrF.trf_quantize_to_step t sps cutoff =
+  if finb (PrimFloat.add (PrimFloat.mul t sps) one_minus_cutoff) then Some (q2s t sps) else None.
 Proof. exact NS.Proofs.TrEquivF.trf_quantize_to_step_eq. Qed.
 Print Assumptions C01_source_quantize_to_step.
 
